@@ -829,6 +829,18 @@ func genC12(t *rapid.T) C12Case {
 		c.Origin = "random-hist-indep"
 		c.Hist = c12GenHist(t, ty, &c.Msg, g, false)
 	}
+	// now and then one or two FAILING decodes (an encoding of the value corrupted inside a
+	// nested field) precede the valid decodes of the oracle
+	if c12Gen8.Draw(t, "corrupt?") >= 6 {
+		n := rapid.IntRange(1, 2).Draw(t, "corruptions")
+		for i := 0; i < n; i++ {
+			c.Corrupt = append(c.Corrupt, C12Corrupt{
+				Pick:     rapid.IntRange(0, 63).Draw(t, "pick"),
+				MinDepth: rapid.SampledFrom([]int{0, 2, 3}).Draw(t, "mindepth"),
+				Kind:     c12CorruptKinds[rapid.IntRange(0, len(c12CorruptKinds)-1).Draw(t, "kind")],
+			})
+		}
+	}
 	return c
 }
 
@@ -925,6 +937,9 @@ func TestExh_C12(t *testing.T) {
 	n0 := n
 	c12HistSweep(ev.Pick(0, 2), run)
 	histCases = n - n0
+	n1 := n
+	c12CorruptSweep(ev.Pick(6, 12), run)
+	r.SetExtra("sweep_corrupt_cases", n-n1)
 	if c12MorphMismatch > 0 {
 		t.Errorf("harness: %d history case(s) in which the in-place modification did not produce the named value (not judged)", c12MorphMismatch)
 	}
